@@ -221,10 +221,44 @@ def copy_history_machines():
             out.append(("%shist_%s" % ({"copy": "copy", "assign": "assign", "move": "move", "saveload": "save"}[mode], hname), md, opss))
     return out
 
+def rowkind_machines():
+    """every kind of row (guard+action, action only, guard only, neither) with every kind of target (simple state,
+    submachine, explicit entry, fork, entry point) - the engines specialise the row execution per kind"""
+    out = []
+    for kname, guard, act, with_ep in [(k, g, a, ep) for ep in (False, True)
+                                       for (k, g, a) in (("row", True, "call"), ("arow", False, "call"), ("grow", True, "none"), ("norow", False, "none"))]:
+        a2 = state(zone=0); a2["explicit"] = True
+        b2 = state(zone=1); b2["explicit"] = True
+        if with_ep:
+            sub = machine([state(zone=0), a2, state(zone=1), b2, state(kind="entrypt", zone=0), state(zone=0)], [0, 2],
+                          [row(20, 0, 5, 1), row(21, 2, 5, 3), row(22, 4, 6, 5, act="call"), row(23, 5, 5, 0), row(24, 1, 5, 0), row(25, 3, 5, 2)])
+        else:
+            sub = machine([state(zone=0), a2, state(zone=1), b2], [0, 2],
+                          [row(20, 0, 5, 1), row(21, 2, 5, 3), row(24, 1, 5, 0), row(25, 3, 5, 2)])
+        root = machine([state(), state(sub=sub), state()], [0],
+                       [row(1, 0, 4, 1, guard=guard, act=act),
+                        row(2, 0, 5, ["direct", 1, [1]], guard=guard, act=act),
+                        row(3, 0, 6, ["direct", 1, [1, 3]], guard=guard, act=act),
+                        (row(4, 0, 7, ["entrypt", 1, 4], guard=guard, act=act) if with_ep else row(4, 0, 7, 1, guard=guard, act=act)),
+                        row(5, 0, 8, 2, guard=guard, act=act),
+                        row(6, 1, 9, 0, act="call"), row(7, 2, 9, 0),
+                        row(8, 0, 10, "none", guard=guard, act=act)])
+        md = mdef(root, 7)
+        opss = []
+        for val in ([1, 2, 3, 4, 5, 8], []):
+            ops = [("start", [], [])]
+            pay = 0
+            for e in (4, 5, 6, 7, 8, 10):
+                pay += 1
+                ops += [("process", e, pay, val, []), ("process", 5, pay + 20, val, []), ("process", 9, pay + 40, val, [])]
+            opss.append(ops)
+        out.append(("rowkind_" + ("ep_" if with_ep else "") + kname, md, opss))
+    return out
+
 def main():
     os.makedirs(os.path.join(VERIF, "corpus"), exist_ok=True)
     n = 0
-    for name, md, opss in fwd_machines() + ortho_machines() + block_machines() + pseudo_machines() + fork_machines() + throw_machines() + throw_nested_machines() + copy_history_machines():
+    for name, md, opss in fwd_machines() + ortho_machines() + block_machines() + pseudo_machines() + fork_machines() + throw_machines() + throw_nested_machines() + copy_history_machines() + rowkind_machines():
         save(name, md, opss)
         n += 1
     print("wrote %d corpus machines" % n)
